@@ -45,6 +45,7 @@ pub fn config_strategy(allow_filter: bool) -> BoxedStrategy<WireConfig> {
             foreign_enr_answer: vec![],
             v_session_timeout_ms: None,
             v_session_capacity: None,
+            v_dual_listen: false,
         })
         .boxed()
 }
@@ -134,6 +135,8 @@ pub fn op_strategy(n_peers: u8, mix: Mix) -> BoxedStrategy<Op> {
         (4, (node(), any::<u16>(), 1u8..=5).prop_map(|(node, sel, packets)| Op::Respond { node, sel, packets }).boxed()),
         (2, peer().prop_map(Op::Restart).boxed()),
         (1, (node(), any::<u16>()).prop_map(|(node, sel)| Op::RespondOtherKind { node, sel }).boxed()),
+        (1, (node(), any::<u16>()).prop_map(|(node, sel)| Op::RespondWithForeignId { node, sel }).boxed()),
+        (1, (peer(), node(), 0u8..3).prop_map(|(peer, to, variant)| Op::UndecodableMessage { peer, to, variant }).boxed()),
     ];
     let probe = (xsel(), 0u8..3).prop_map(|(x, z)| Op::Probe { x, z }).boxed();
     let forged_msg = (xsel(), 0u8..3, prop_oneof![Just(ForgedBody::Ping), Just(ForgedBody::Talk), Just(ForgedBody::Garbage)])
@@ -156,7 +159,12 @@ pub fn op_strategy(n_peers: u8, mix: Mix) -> BoxedStrategy<Op> {
     let replay_hs = (prop_oneof![4 => Just(0u8), 2 => Just(1u8), 1 => 2u8..6], prop_oneof![3 => Just(AddrSel::Original), 1 => addr_sel()]).prop_map(|(nth, from)| Op::ReplayHandshake { nth, from }).boxed();
     let mut all = honest;
     match mix {
-        Mix::Faulty => {}
+        Mix::Faulty => {
+            // a little hostile traffic next to the faulty network: undecryptable packets that provoke
+            // challenges, and handshakes that do not verify (from attacker addresses or a peer's own)
+            all.push((1, probe));
+            all.push((2, forged_handshake()));
+        }
         Mix::Exemptions => {
             all.push((2, (node(), any::<u16>()).prop_map(|(node, sel)| Op::RespondOtherKind { node, sel }).boxed()));
             all.push((5, probe));
@@ -368,9 +376,11 @@ pub fn ops_strategy(n_peers: u8, mix: Mix, max_fragments: usize) -> BoxedStrateg
         ]
     })
     .boxed();
+    // requests to more addresses at once than any table of awaited addresses could be expected to hold
+    let crowd = (1030u16..1300, prop_oneof![Just(Dt::Ms1), Just(Dt::TimeoutFrac40)]).prop_map(|(n, dt)| vec![Op::DeliverAll, Op::SubmitToMany { n }, Op::Advance(dt)]).boxed();
     let frag = match mix {
         Mix::Identity => prop_oneof![18 => single, 12 => attack, 2 => spoof_race, 1 => early_replay, 2 => replay_accepted].boxed(),
-        Mix::Exemptions => prop_oneof![6 => single, 1 => attack].boxed(),
+        Mix::Exemptions => prop_oneof![600 => single, 100 => attack, 1 => crowd].boxed(),
         Mix::Tamper => prop_oneof![30 => single, 6 => exchange, 1 => spoof_race, 1 => old_key_fallback].boxed(),
         Mix::Replay => prop_oneof![30 => single, 6 => exchange, 1 => late_handshake, 1 => early_replay, 2 => replay_accepted].boxed(),
         _ => prop_oneof![60 => single, 1 => burst_fail, 2 => slow_challenge].boxed(),
